@@ -29,6 +29,14 @@ integer itself — tags 'none' (None), 'zero' (0), 'false' (False), 'fzero' (0.0
 iterator, awaitable result, async yield) and the value is mapped back to the id in every observed set; the model only
 ever sees ids.  At most one of 'zero' / 'false' / 'fzero' per case (they are equal as set elements).
 
+case['fn'] (optional) = how the harness-owned buffered function is handed to BufferAsyncCalls: 'method' (a bound async
+method), 'object' (an instance of a class with `async def __call__` — no __name__ / __qualname__), 'partial' (a
+functools.partial of the method).  case['failwith'] (optional) = what a scripted ['fail'] makes the function raise: 'exc' (an
+ordinary Exception), 'cancel' (asyncio.CancelledError raised by the function itself — nobody cancels the buffer's task, so
+it is a failed call like any other), 'alt' / 'alt2' (alternating by call number, starting with the Exception / the
+CancelledError).  When absent both are derived from a checksum of the event list (fn_kind / fail_kind), so every generator
+layer covers all combinations; the shrinker writes them into the case so that they stay fixed.  The model's event is FnFail.
+
 Everything the buffered function / the producers do is scripted: the function
 logs `start` with a COPY of the set and parks on a harness future resolved by
 the next ['ok'] / ['fail']; asynchronous producers take their yields / failure /
@@ -54,8 +62,10 @@ the put.  An unmatched 'fclear' / 'fput' is performed directly as before.
 from __future__ import annotations
 
 import asyncio
+import functools
 import logging
 import threading
+import zlib
 
 from .vloop import Sim, TICK
 
@@ -64,6 +74,32 @@ VALUE_TAGS = {'none': None, 'zero': 0, 'false': False, 'fzero': 0.0, 'str': '', 
               'fset': frozenset()}
 ZERO_FAMILY = ('zero', 'false', 'fzero')
 SENTINEL = 4999
+
+
+FN_KINDS = ('method', 'object', 'partial')
+FAIL_KINDS = ('exc', 'cancel', 'alt', 'alt2')
+
+
+def _checksum(case):
+    return zlib.crc32(repr([list(e) for e in case['evs']]).encode())
+
+
+def fn_kind(case):
+    return case.get('fn') or FN_KINDS[(_checksum(case) // 4) % 3]
+
+
+def fail_kind(case):
+    return case.get('failwith') or FAIL_KINDS[_checksum(case) % 4]
+
+
+class _FnObject:
+    """a callable object: no __name__, no __qualname__"""
+
+    def __init__(self, run):
+        self._run = run
+
+    async def __call__(self, inputs):
+        await self._run.fn(inputs)
 
 
 class ProdErr(Exception):
@@ -296,6 +332,18 @@ class Run:
         self.fthread = {}       # script index of a 'fput' -> the thread parked before its second operation
         self.idx = -1
         self.vals = {int(k): v for k, v in (case.get('vals') or {}).items()}
+        self.fn_kind = fn_kind(case)
+        self.fail_kind = fail_kind(case)
+
+    def wrapped(self):
+        if self.fn_kind == 'object':
+            return _FnObject(self)
+        if self.fn_kind == 'partial':
+            return functools.partial(self.fn)
+        return self.fn
+
+    def fails_with_cancel(self, k):
+        return {'exc': False, 'cancel': True, 'alt': k % 2 == 1, 'alt2': k % 2 == 0}[self.fail_kind]
 
     # -- argument ids <-> Python values ------------------------------------------
     def enc(self, x):
@@ -341,6 +389,8 @@ class Run:
         self.sim.obs('start', k, self.frozen(inputs), self.sim.ticks())
         ok = await fut
         if not ok:
+            if self.fails_with_cancel(k):
+                raise asyncio.CancelledError()      # the function's own failure: nobody cancelled the buffer's task
             raise FnErr(f'call {k} failed')
 
     async def agen(self, p):
@@ -643,7 +693,7 @@ class Run:
                 return t
             loop.set_task_factory(factory)
             loop.set_exception_handler(lambda lp, ctx: None)
-            self.buffer = BufferAsyncCalls(self.fn, timeout=self.T * TICK)
+            self.buffer = BufferAsyncCalls(self.wrapped(), timeout=self.T * TICK)
             # gated stand-ins for the two public attributes _put goes through
             self._real_loop = self.buffer.loop
             ge = _GatedEvent()
@@ -865,6 +915,7 @@ def shrink_candidates(case):
     evs = case['evs']
     if any(e[0] == 'burst' and e[2] >= BIG_BURST for e in evs):
         return []
+    case = dict(case, fn=fn_kind(case), failwith=fail_kind(case))     # keep the flavours of the original while shrinking
     out = []
     for i in range(len(evs)):
         out.append(dict(case, evs=evs[:i] + evs[i + 1:]))
@@ -1148,7 +1199,8 @@ def distribution(cases, obs):
     d = dict(events=0, submit_plain=0, submit_list=0, submit_iter=0, submit_aw=0, submit_async=0,
              pyield=0, pfail=0, pend=0, advance=0, wait_cancel=0, wait_nocancel=0, fnok=0, fnfail=0,
              shutdown=0, foreign=0, submit_then_wait=0, fn_starts=0, fn_ok=0, fn_failed=0, wait_returns=0,
-             daemon_ended=0, hang=0, T8=0, T100=0, T1024=0, T_other=0, settled_tail=0, unusual_values=0, none_in_iterator=0)
+             daemon_ended=0, hang=0, T8=0, T100=0, T1024=0, T_other=0, settled_tail=0, unusual_values=0, none_in_iterator=0,
+             fn_method=0, fn_object=0, fn_partial=0, fnfail_exception=0, fnfail_cancellederror=0)
     keymap = {'py': 'pyield', 'pf': 'pfail', 'pe': 'pend', 'adv': 'advance', 'ok': 'fnok', 'fail': 'fnfail',
               'shutdown': 'shutdown', 'fclear': 'foreign', 'fput': 'foreign', 'okfclear': 'foreign',
               'fputwait': 'foreign', 'fputl': 'foreign'}
@@ -1156,6 +1208,14 @@ def distribution(cases, obs):
         d[{8: 'T8', 100: 'T100', 1024: 'T1024'}.get(c['T'], 'T_other')] += 1
         evs = c['evs']
         d['events'] += len(evs)
+        d['fn_' + fn_kind(c)] += 1
+        fk = fail_kind(c)
+        if isinstance(o, dict) and 'obs' in o:
+            for st in o['obs']:
+                for x in st:
+                    if x[0] == 'end' and not x[2]:
+                        canc = {'exc': False, 'cancel': True, 'alt': x[1] % 2 == 1, 'alt2': x[1] % 2 == 0}[fk]
+                        d['fnfail_cancellederror' if canc else 'fnfail_exception'] += 1
         if c.get('vals'):
             d['unusual_values'] += 1
             nones = {int(k) for k, t in c['vals'].items() if t == 'none'}
